@@ -15,13 +15,44 @@ Lemma phase_of_code (name s v : string) (lat : list T) :
   resolve_pg s = Some v -> mk_phase name None (Some s) lat = Ok (mkPhase name None (Some v) lat).
 Proof. intros H. unfold mk_phase. rewrite H. reflexivity. Qed.
 
-(* .ctf: space group n and Laue class name l *)
-Lemma phase_ctf_kept (name l : string) (n : Z) (lat : list T) :
-  sg_valid n = true -> resolve_pg l = Some l -> sg_pg n = l ->
-  mk_phase name (Some n) (Some l) lat = Ok (mkPhase name (Some n) (Some l) lat).
-Proof. intros Hv Hr He. unfold mk_phase. rewrite Hv, Hr, He, String.eqb_refl. reflexivity. Qed.
+(* .ctf: a phase line gives a Laue class and a space group number.  The reader hands
+   PhaseList the space group alone when there is one (n <> 0) ... *)
+Lemma ctf_pg_with_sg (laue n : Z) : n <> 0%Z -> ctf_point_group laue n = Some None.
+Proof. intros H. unfold ctf_point_group. destruct (Z.eqb_spec n 0); [contradiction|reflexivity]. Qed.
 
-Lemma phase_ctf_dropped (name l : string) (n : Z) (lat : list T) :
+(* ... so that EVERY valid space group is kept and determines the point group,
+   centrosymmetric or not and whatever the Laue class field says *)
+Lemma phase_ctf_sg (name : string) (laue n : Z) (lat : list T) :
+  sg_valid n = true ->
+  ctf_point_group laue n = Some None /\
+  mk_phase name (Some n) None lat = Ok (mkPhase name (Some n) (Some (sg_pg n)) lat).
+Proof.
+  intros Hv. split.
+  - apply ctf_pg_with_sg. unfold sg_valid in Hv. apply andb_prop in Hv. destruct Hv as [Hv _].
+    apply Z.leb_le in Hv. lia.
+  - unfold mk_phase. rewrite Hv. reflexivity.
+Qed.
+
+(* ... and the Laue class name when there is none (0, e.g. MTEX) *)
+Lemma ctf_pg_without_sg (laue : Z) :
+  ctf_point_group laue 0 = option_map Some (py_index ctf_laue_ids (laue - 1)).
+Proof. unfold ctf_point_group. cbn [Z.eqb]. destruct (py_index ctf_laue_ids (laue - 1)); reflexivity. Qed.
+
+Lemma phase_ctf_nosg (name l : string) (lat : list T) :
+  resolve_pg l = Some l -> mk_phase name None (Some l) lat = Ok (mkPhase name None (Some l) lat).
+Proof. intros Hr. unfold mk_phase. rewrite Hr. reflexivity. Qed.
+
+Lemma phase_ctf_laue_nosg (name l : string) (laue : Z) (lat : list T) :
+  py_index ctf_laue_ids (laue - 1) = Some l -> resolve_pg l = Some l ->
+  ctf_point_group laue 0 = Some (Some l) /\
+  mk_phase name None (Some l) lat = Ok (mkPhase name None (Some l) lat).
+Proof.
+  intros H1 H2. split; [rewrite ctf_pg_without_sg, H1; reflexivity|exact (phase_ctf_nosg name l lat H2)].
+Qed.
+
+(* Phase() itself still drops a space group when it is given TOGETHER with a point
+   group of another name (what the reader did with the Laue class before the repair) *)
+Lemma phase_both_dropped (name l : string) (n : Z) (lat : list T) :
   sg_valid n = true -> resolve_pg l = Some l -> sg_pg n <> l ->
   mk_phase name (Some n) (Some l) lat = Ok (mkPhase name None (Some l) lat).
 Proof.
@@ -29,33 +60,23 @@ Proof.
   destruct (String.eqb_spec (sg_pg n) l); [contradiction|reflexivity].
 Qed.
 
-Lemma phase_ctf_nosg (name l : string) (lat : list T) :
-  resolve_pg l = Some l -> mk_phase name None (Some l) lat = Ok (mkPhase name None (Some l) lat).
-Proof. intros Hr. unfold mk_phase. rewrite Hr. reflexivity. Qed.
-
 (* Bruker: only the space group is given *)
 Lemma phase_bruker (name : string) (n : Z) (lat : list T) :
   sg_valid n = true -> mk_phase name (Some n) None lat = Ok (mkPhase name (Some n) (Some (sg_pg n)) lat).
 Proof. intros Hv. unfold mk_phase. rewrite Hv. reflexivity. Qed.
 
-(* every Laue class except 10 names an orix group; 10 does not *)
+(* every Laue class 1..11 names an orix group (its own name) *)
 Lemma laue_classes_resolve :
   forallb (fun k => match py_index ctf_laue_ids (k - 1) with
                     | Some l => match resolve_pg l with Some v => String.eqb v l | None => false end
                     | None => false end)
-          [1; 2; 3; 4; 5; 6; 7; 8; 9; 11]%Z = true.
+          [1; 2; 3; 4; 5; 6; 7; 8; 9; 10; 11]%Z = true.
 Proof. vm_compute. reflexivity. Qed.
 
-Lemma laue10_unresolved :
-  match py_index ctf_laue_ids (10 - 1) with Some l => resolve_pg l | None => Some "" end = None.
-Proof. vm_compute. reflexivity. Qed.
-
-(* the EDAX codes that are aliased or are group names; 62 is neither *)
+(* the EDAX codes that are aliased or are group names, 62 included *)
 Lemma tsl_codes_resolve :
-  map resolve_pg ["43"; "23"; "6"; "32"; "3"; "42"; "4"; "22"; "2"; "20"; "1"; "m3m"] =
-  map Some ["432"; "23"; "6"; "32"; "3"; "422"; "4"; "222"; "2/m"; "121"; "1"; "m-3m"].
-Proof. vm_compute. reflexivity. Qed.
-Lemma tsl_62_unresolved : resolve_pg "62" = None.
+  map resolve_pg ["43"; "23"; "62"; "6"; "32"; "3"; "42"; "4"; "22"; "2"; "20"; "1"; "m3m"] =
+  map Some ["432"; "23"; "622"; "6"; "32"; "3"; "422"; "4"; "222"; "2/m"; "121"; "1"; "m-3m"].
 Proof. vm_compute. reflexivity. Qed.
 
 (* ---------------------------------------- CrystalMap phase reconciliation *)
@@ -95,45 +116,51 @@ Definition cpt0 (x y : T) : cpoint (T:=T) := mkCPt 1%Z x y z0 z0 (z0, z0, z0) z0
 Definition ctf_wit (v : cvendor) (laue sg : Z) (nr nc : nat) (pts : list (cpoint (T:=T))) : ctffile (T:=T) :=
   mkCF v ["x"] "me" [] nr nc (o_ofZ Op 1) (o_ofZ Op 1) [mkCP cubic "Pyrite" laue sg []] pts.
 
-Lemma ctf_laue10_raises :
-  parse_ctf Op (render_chdr (ctf_wit COxford 10 205 1 2 [cpt0 z0 z0; cpt0 (o_ofZ Op 1) z0]))
-               (map (render_cpt (T:=T)) [cpt0 z0 z0; cpt0 (o_ofZ Op 1) z0]) [] = Err EValue.
-Proof. vm_compute. reflexivity. Qed.
+(* Laue class 10 (m-3): with space group 205 (Pa-3, pyrite) and without a space group *)
+Lemma ctf_laue10_loads :
+  exists m, parse_ctf Op (render_chdr (ctf_wit COxford 10 205 1 2 [cpt0 z0 z0; cpt0 (o_ofZ Op 1) z0]))
+               (map (render_cpt (T:=T)) [cpt0 z0 z0; cpt0 (o_ofZ Op 1) z0]) = Ok m
+            /\ map (fun kp => (fst kp, ph_sg (snd kp), ph_pg (snd kp))) (xm_phases m) = [(1%Z, Some 205%Z, Some "m-3")].
+Proof. eexists. split; vm_compute; reflexivity. Qed.
 
-(* same file with Laue class 11: loads *)
+Lemma ctf_laue10_nosg_loads :
+  exists m, parse_ctf Op (render_chdr (ctf_wit COxford 10 0 1 2 [cpt0 z0 z0; cpt0 (o_ofZ Op 1) z0]))
+               (map (render_cpt (T:=T)) [cpt0 z0 z0; cpt0 (o_ofZ Op 1) z0]) = Ok m
+            /\ map (fun kp => (fst kp, ph_sg (snd kp), ph_pg (snd kp))) (xm_phases m) = [(1%Z, None, Some "m-3")].
+Proof. eexists. split; vm_compute; reflexivity. Qed.
+
+(* same file with Laue class 11 *)
 Lemma ctf_laue11_loads :
   exists m, parse_ctf Op (render_chdr (ctf_wit COxford 11 225 1 2 [cpt0 z0 z0; cpt0 (o_ofZ Op 1) z0]))
-               (map (render_cpt (T:=T)) [cpt0 z0 z0; cpt0 (o_ofZ Op 1) z0]) [] = Ok m
+               (map (render_cpt (T:=T)) [cpt0 z0 z0; cpt0 (o_ofZ Op 1) z0]) = Ok m
             /\ map (fun kp => (fst kp, ph_sg (snd kp), ph_pg (snd kp))) (xm_phases m) = [(1%Z, Some 225%Z, Some "m-3m")].
 Proof. eexists. split; vm_compute; reflexivity. Qed.
 
-(* space group 216 (F-43m) under Laue class 11: loaded WITHOUT the space group *)
-Lemma ctf_sg216_dropped :
+(* space group 216 (F-43m) under Laue class 11: loaded WITH the space group, point group -43m *)
+Lemma ctf_sg216_kept :
   exists m, parse_ctf Op (render_chdr (ctf_wit COxford 11 216 1 2 [cpt0 z0 z0; cpt0 (o_ofZ Op 1) z0]))
-               (map (render_cpt (T:=T)) [cpt0 z0 z0; cpt0 (o_ofZ Op 1) z0]) [] = Ok m
-            /\ map (fun kp => (fst kp, ph_sg (snd kp), ph_pg (snd kp))) (xm_phases m) = [(1%Z, None, Some "m-3m")].
+               (map (render_cpt (T:=T)) [cpt0 z0 z0; cpt0 (o_ofZ Op 1) z0]) = Ok m
+            /\ map (fun kp => (fst kp, ph_sg (snd kp), ph_pg (snd kp))) (xm_phases m) = [(1%Z, Some 216%Z, Some "-43m")].
 Proof. eexists. split; vm_compute; reflexivity. Qed.
 
-(* ASTAR .ctf, one row: the slices helper returns a single stop *)
-Lemma ctf_astar_line_raises :
-  parse_ctf Op (render_chdr (ctf_wit CAstar 11 225 1 2 [cpt0 z0 z0; cpt0 (o_ofZ Op 1) z0]))
-               (map (render_cpt (T:=T)) [cpt0 z0 z0; cpt0 (o_ofZ Op 1) z0]) [2%Z] = Err EIndex.
-Proof. vm_compute. reflexivity. Qed.
-
-(* ASTAR .ctf, >= 2 rows and columns: whatever the helper returns ([nc; nr] for a regular grid) the
-   comparison (nc + 1, nr + 1) = (nr, nc) fails, so the header grid is always used *)
-Lemma astar_always_regrid (s0 s1 nx ny : Z) :
-  ((s0 + 1 =? ny)%Z && (s1 + 1 =? nx)%Z) = true -> s0 = nx -> s1 = ny -> False.
-Proof. intros H -> ->. apply andb_prop in H. destruct H as [A B]. apply Z.eqb_eq in A, B. lia. Qed.
+(* ASTAR .ctf, ONE row of two points whose printed x coordinates have collapsed to the same
+   value: loads, with the coordinates of the header grid (0 * XStep, 1 * XStep; y = 0 * YStep) *)
+Lemma ctf_astar_line_loads :
+  exists m, parse_ctf Op (render_chdr (ctf_wit CAstar 11 225 1 2 [cpt0 z0 z0; cpt0 z0 z0]))
+               (map (render_cpt (T:=T)) [cpt0 z0 z0; cpt0 z0 z0]) = Ok m
+            /\ xm_x m = [o_mul Op (o_ofZ Op 0) (o_ofZ Op 1); o_mul Op (o_ofZ Op 1) (o_ofZ Op 1)]
+            /\ xm_y m = [o_mul Op (o_ofZ Op 0) (o_ofZ Op 1); o_mul Op (o_ofZ Op 0) (o_ofZ Op 1)]
+            /\ xm_pid m = [1%Z; 1%Z].
+Proof. eexists. split; [|split; [|split]]; vm_compute; reflexivity. Qed.
 
 Definition apt0 (rest : list T) : apoint (T:=T) := mkPt (z0, z0, z0) z0 z0 z0 z0 1%Z rest.
 Definition ang_wit (v : avendor) (sym : string) (rest : list T) : angfile (T:=T) :=
   mkAF v [] [mkAP (Some 1%Z) ["Titanium"] None [] sym cubic] [] [] [apt0 rest; apt0 rest].
 
-Lemma ang_sym62_raises :
-  parse_ang Op (render_hdr (ang_wit AAstar "62" [z0])) (map (render_pt (T:=T)) (af_pts (ang_wit AAstar "62" [z0])))
-  = Err EValue.
-Proof. vm_compute. reflexivity. Qed.
+Lemma ang_sym62_loads :
+  exists m, parse_ang Op (render_hdr (ang_wit AAstar "62" [z0])) (map (render_pt (T:=T)) (af_pts (ang_wit AAstar "62" [z0])))
+            = Ok m /\ map (fun kp => (fst kp, ph_pg (snd kp))) (xm_phases m) = [(1%Z, Some "622")].
+Proof. eexists. split; vm_compute; reflexivity. Qed.
 
 Lemma ang_sym43_loads :
   exists m, parse_ang Op (render_hdr (ang_wit AAstar "43" [z0])) (map (render_pt (T:=T)) (af_pts (ang_wit AAstar "43" [z0])))
